@@ -27,6 +27,8 @@ def sub1(old, new, nth=None):
                 raise SystemExit("selftest: pattern occurs %d times: %r" % (s.count(old), old))
             return s.replace(old, new)
         parts = s.split(old)
+        if nth + 1 >= len(parts):
+            raise SystemExit("selftest: pattern occurs only %d times (nth=%d): %r" % (len(parts) - 1, nth, old))
         return old.join(parts[:nth + 1]) + new + old.join(parts[nth + 1:])
     return f
 
@@ -76,13 +78,13 @@ CASES = [
     ("N05 groestl tf1024_impl: software pipelining — the next block's first vector is loaded (`data.add(8)`)", False, GC, sub1("    let q = transpose(p);\n    *cv = *cv ^ rounds_p(*cv ^ q);", "    let _next = _mm_loadu_si128(data.add(8));\n    let q = transpose(p);\n    *cv = *cv ^ rounds_p(*cv ^ q);")),
     ("N06 groestl tf1024_impl: prefetch loop `for i in 0..=8` (one load too many in the last iteration)", False, GC, sub1("    let q = transpose(p);\n    *cv = *cv ^ rounds_p(*cv ^ q);", "    for i in 0..=8 {\n        let _ = _mm_loadu_si128(data.add(i));\n    }\n    let q = transpose(p);\n    *cv = *cv ^ rounds_p(*cv ^ q);")),
     ("N07 groestl tf1024_impl: `while` loop over the vectors (loud: not in the language)", False, GC, sub1("    let q = transpose(p);\n    *cv = *cv ^ rounds_p(*cv ^ q);", "    let mut i = 0;\n    while i < 9 {\n        let _ = _mm_loadu_si128(data.add(i));\n        i += 1;\n    }\n    let q = transpose(p);\n    *cv = *cv ^ rounds_p(*cv ^ q);")),
-    ("N08 groestl tf1024_impl: third load reads offset 1 again (`lddqu(data.offset(1))`)", False, GC, sub1("_mm_loadu_si128(data.offset(2)),", "_mm_lddqu_si128(data.offset(1)),", nth=1)),
+    ("N08 groestl tf1024_impl: third load reads offset 1 again (`lddqu(data.offset(1))`)", False, GC, sub1("_mm_loadu_si128(data.offset(2)),", "_mm_lddqu_si128(data.offset(1)),")),
     ("N09 groestl tf512_impl: second load dropped (`d1 = d0`)", False, GC, sub1("let d1 = _mm_loadu_si128(data.offset(1));", "let d1 = d0;")),
     ("N10 groestl autodetect::tf512: shifted pointer `data.as_ptr().add(1)`", False, GC, sub1("unsafe { IMPL(cv, data.as_ptr()) }", "unsafe { IMPL(cv, data.as_ptr().add(1)) }", nth=0)),
     ("N11 groestl autodetect::tf1024 takes a 64-byte array", False, GC, sub1("pub fn tf1024(cv: &mut X8, data: &GenericArray<u8, U128>)", "pub fn tf1024(cv: &mut X8, data: &GenericArray<u8, U64>)")),
     ("N12 groestl sse2::tf512 runs tf1024_impl on the 64-byte block", False, GC, sub1("        tf512_impl(cv, data)\n", "        tf1024_impl(core::mem::transmute(cv), data)\n", nth=2)),
     ("N13 groestl tf512_impl: first vector through a plain dereference `*data`", False, GC, sub1("let d0 = _mm_loadu_si128(data);", "let d0 = *data;")),
-    ("N14 groestl tf1024_impl: non-temporal aligned load for vector 3", False, GC, sub1("_mm_loadu_si128(data.offset(3)),", "_mm_stream_load_si128(data.offset(3) as *mut __m128i),", nth=1)),
+    ("N14 groestl tf1024_impl: non-temporal aligned load for vector 3", False, GC, sub1("_mm_loadu_si128(data.offset(3)),", "_mm_stream_load_si128(data.offset(3) as *mut __m128i),")),
     ("N15 groestl lib.rs Compressor512::input hands on half of the block", False, GL, sub1("        tf512(&mut self.cv, data);", "        tf512(&mut self.cv, GenericArray::from_slice(&data[..32]));")),
     # ---- JH compressor.rs
     ("N16 jh f8_impl: `data.offset(3)` -> `data.offset(4)` after the rounds", False, JC, sub1("y.7 ^= ptr::read_unaligned(data.offset(3));", "y.7 ^= ptr::read_unaligned(data.offset(4));")),
@@ -107,7 +109,7 @@ CASES = [
     ("N34 sse2 avx2 unsafe_read_be: its own load without the length assert", False, SS, sub1("Self::unsafe_read_le(input).bswap()", "Self::new(_mm256_loadu_si256(input.as_ptr() as *const _)).bswap()")),
     ("N35 sse2 def_vec unsafe_read_le: the assert moved behind the load", False, SS, sub1("                assert_eq!(input.len(), 16);\n                Self::new(_mm_loadu_si128(input.as_ptr() as *const _))\n", "                let v = Self::new(_mm_loadu_si128(input.as_ptr() as *const _));\n                assert_eq!(input.len(), 16);\n                v\n")),
     ("N36 sse2 def_vec write_le: `copy_nonoverlapping(.., 32)` for the 16-byte vector", False, SS, sub1("unsafe { _mm_storeu_si128(out.as_mut_ptr() as *mut _, self.x) }", "unsafe { core::ptr::copy_nonoverlapping(&self.x as *const _ as *const u8, out.as_mut_ptr(), 32) }")),
-    ("N37 sse2 avx2 write_be: stores directly, half the vector (`_mm_storeu_si128`) after the 32-byte check is gone", False, SS, sub1("self.bswap().write_le(out)", "unsafe { _mm256_storeu_si256(out.as_mut_ptr() as *mut _, self.bswap().x) }")),
+    ("N37 sse2 avx2 write_be: stores 32 bytes directly, without the length assert of write_le", False, SS, sub1("self.bswap().write_le(out)", "unsafe { _mm256_storeu_si256(out.as_mut_ptr() as *mut _, self.bswap().x) }")),
     # ---- soft.rs forwarders
     ("N38 soft x2 unsafe_read_le: split at len/2 + 1", False, SO, sub1("        let input = input.split_at(input.len() / 2);\n        x2::new([W::unsafe_read_le(input.0)", "        let input = input.split_at(input.len() / 2 + 1);\n        x2::new([W::unsafe_read_le(input.0)")),
     ("N39 soft x2 write_be: both halves written to out.0", False, SO, sub1("        self.0[1].write_be(out.1);", "        self.0[1].write_be(out.0);")),
@@ -120,7 +122,7 @@ CASES = [
     ("N45 generic u32x4 unsafe_read_le: `.unwrap()` replaced by a default (loud)", False, GE, sub1("let x = u32x4_generic::read_from_bytes(input).unwrap();\n        dmap(x, |x| x.to_le())", "let x = u32x4_generic::read_from_bytes(input).unwrap_or(u32x4_generic([0; 4]));\n        dmap(x, |x| x.to_le())")),
     ("N46 generic u64x2 write_le: `write_to` -> `write_to_prefix` (loud)", False, GE, sub1("let x = qmap(self, |x| x.to_le());\n        x.write_to(out).unwrap();", "let x = qmap(self, |x| x.to_le());\n        x.write_to_prefix(out).unwrap();")),
     ("N47 generic u32x4 unsafe_read_be: reads the first 16 bytes of any longer slice", False, GE, sub1("let x = u32x4_generic::read_from_bytes(input).unwrap();\n        dmap(x, |x| x.to_be())", "let x = u32x4_generic::read_from_bytes(&input[..16]).unwrap();\n        dmap(x, |x| x.to_be())")),
-    ("N48 generic u64x2 unsafe_read_le: reads a u32x4_generic-sized... a `[u64; 4]` (32 bytes) from the slice", False, GE, sub1("    pub struct u64x2_generic([u64; 2]);", "    pub struct u64x2_generic([u64; 4]);")),
+    ("N48 generic u64x2_generic grows to `[u64; 4]`: 32 bytes read from / written to the slice", False, GE, sub1("    pub struct u64x2_generic([u64; 2]);", "    pub struct u64x2_generic([u64; 4]);")),
     # ---- types.rs
     ("N49 types Machine::read_le: skips the first byte", False, TY, sub1("V::unsafe_read_le(input)", "V::unsafe_read_le(&input[1..])")),
     # ---- a new raw-memory function nobody accounts for
